@@ -5,10 +5,28 @@ from .. import core
 
 PROP = "C13"
 MODULE = "GmqttVerif.Properties.C13"
-THEOREMS = ["GmqttVerif.Alias.outbound_alias_sound", "GmqttVerif.Alias.outbound_alias_used",
-            "GmqttVerif.Alias.outbound_no_alias_when_zero", "GmqttVerif.Alias.check_panics_when_zero",
-            "GmqttVerif.Alias.inbound_alias", "GmqttVerif.Alias.inbound_alias_fails_as_is",
-            "GmqttVerif.Alias.inbound_alias_as_is_panics", "GmqttVerif.Alias.inbound_bind_then_use"]
+THEOREMS = ["GmqttVerif.Alias.outbound_alias_sound",
+            "GmqttVerif.Alias.outbound_alias_used",
+            "GmqttVerif.Alias.outbound_no_alias_when_zero",
+            "GmqttVerif.Alias.check_panics_when_zero",
+            "GmqttVerif.Alias.inbound_alias",
+            "GmqttVerif.Alias.inbound_alias_fails_as_is",
+            "GmqttVerif.Alias.inbound_alias_as_is_panics",
+            "GmqttVerif.Alias.inbound_bind_then_use",
+            "GmqttVerif.Broker.outbound_size",
+            "GmqttVerif.Broker.outbound_size_partial",
+            "GmqttVerif.Broker.outbound_size_full_refuted",
+            "GmqttVerif.Broker.pump_keeps_online",
+            "GmqttVerif.Broker.outbound_alias_range_and_resolution",
+            "GmqttVerif.Broker.inbound_alias_verdicts",
+            "GmqttVerif.Broker.inbound_alias_refines_spec",
+            "GmqttVerif.Broker.inbound_quota",
+            "GmqttVerif.Broker.inbound_quota_never_refused",
+            "GmqttVerif.Broker.inbound_quota_exceeded_kicked",
+            "GmqttVerif.Broker.inbound_size",
+            "GmqttVerif.Broker.negotiate_ok",
+            "GmqttVerif.Broker.receive_maximum_zero_starves"]
+EXTRA_MODULES = ['GmqttVerif.Properties.C13Broker']
 COMPS = ["aliasfifo", "aliasin", "broker"]
 
 TOPICS = ["a", "b", "c", "d/e", "f", "g", "h", "i"]
